@@ -101,6 +101,13 @@ macro_rules! ensure_eq {
 thread_local! {
     static LAST_PANIC: RefCell<Option<(String, String)>> = const { RefCell::new(None) };
     static QUIET: RefCell<bool> = const { RefCell::new(false) };
+    static THREAD_PANICS: RefCell<Vec<(String, String)>> = const { RefCell::new(Vec::new()) };
+}
+
+/// Drain the panics recorded on *this thread* since the last call (includes
+/// panics swallowed by tasks of a current-thread runtime driven on this thread).
+pub fn take_thread_panics() -> Vec<(String, String)> {
+    THREAD_PANICS.with(|p| std::mem::take(&mut *p.borrow_mut()))
 }
 
 /// Process-wide count of panics seen by the hook (including ones swallowed by
@@ -129,6 +136,13 @@ pub fn install_panic_hook() {
         PANIC_COUNT.fetch_add(1, Ordering::SeqCst);
         *GLOBAL_LAST_PANIC.lock().unwrap() = Some((loc.clone(), msg.clone()));
         LAST_PANIC.with(|p| *p.borrow_mut() = Some((loc.clone(), msg.clone())));
+        let _ = THREAD_PANICS.try_with(|p| {
+            if let Ok(mut v) = p.try_borrow_mut() {
+                if v.len() < 64 {
+                    v.push((loc.clone(), msg.clone()));
+                }
+            }
+        });
         if std::env::var_os("VERIF_SHOW_PANICS").is_some() {
             eprintln!("[panic] {loc}: {msg}");
         }
